@@ -1,4 +1,5 @@
 import DocsModel.Model.Swarm
+import DocsModel.Lemmas.StoreOk
 import DocsModel.Props.C02
 /-!
 # C04 — a swarm of replicas is eventually consistent despite loss, duplication and reordering
@@ -22,31 +23,6 @@ open Spec Entry
 
 /-- replica `i` holds `e` or something that supersedes it -/
 def Knows (s : S) (i : Nat) (e : Entry) : Prop := ∃ m ∈ s.st i, dom m e
-
-structure StoreOk (a : Store) : Prop where
-  anti : ∀ x ∈ a, ∀ y ∈ a, dom x y → x = y
-  sorted : SortedById a
-
-theorem storeOk_nil : StoreOk [] := ⟨by simp, List.Pairwise.nil⟩
-
-theorem putInv_self {a : Store} (h : StoreOk a) : PutInv a a :=
-  ⟨fun _ hx => hx, h.anti, fun p hp => ⟨p, hp, dom_refl p⟩, h.sorted⟩
-
-theorem put_ok {a : Store} (h : StoreOk a) (e : Entry) : StoreOk (put a e).1 :=
-  ⟨(putInv_step (putInv_self h) e).anti, (putInv_step (putInv_self h) e).sorted⟩
-
-theorem put_sub {a : Store} (h : StoreOk a) (e x : Entry) (hx : x ∈ (put a e).1) : x = e ∨ x ∈ a := by
-  have := (putInv_step (putInv_self h) e).sub x hx
-  simpa using this
-
-theorem put_covers_old {a : Store} (h : StoreOk a) (e p : Entry) (hk : ∃ m ∈ a, dom m p) :
-    ∃ m ∈ (put a e).1, dom m p := by
-  obtain ⟨m, hm, hd⟩ := hk
-  obtain ⟨m', hm', hd'⟩ := (putInv_step (putInv_self h) e).cover m (List.mem_cons_of_mem _ hm)
-  exact ⟨m', hm', dom_trans hd' hd⟩
-
-theorem put_covers_new {a : Store} (h : StoreOk a) (e : Entry) : ∃ m ∈ (put a e).1, dom m e :=
-  (putInv_step (putInv_self h) e).cover e List.mem_cons_self
 
 theorem merge_inv (a b : Store) : PutInv (merge a b) ((a ++ b).reverse) := by
   have := putInv_run putInv_nil (a ++ b)
